@@ -142,6 +142,11 @@ func runAction(t *T, action func(*T)) (invalid bool, skipped bool) {
 	defer func(draws int) {
 		if r := recover(); r != nil {
 			if _, ok := r.(invalidData); ok {
+				// a non-fatal failure signaled before the skip fails the test case here,
+				// inside the action that raised it, instead of surfacing in a later action
+				// after this one's bits have been discarded as a rejected attempt
+				t.failOnError()
+
 				invalid = true
 				skipped = t.draws == draws
 			} else {
